@@ -10,7 +10,7 @@ import (
 
 // ---------------- C16: no residue
 
-var residueOps = OpWeights{KOpen: 1, KAdd: 8, KAddMulti: 2, KAbandon: 2, KCompactAll: 4, KExpire: 1, KAutoCompact: 2, KRead: 1, KClose: 2, KClean: 2}
+var residueOps = OpWeights{KOpen: 1, KAdd: 8, KAddMulti: 2, KAbandon: 2, KCompactAll: 4, KExpire: 1, KAutoCompact: 2, KRead: 1, KClose: 2, KClean: 2, KCompactRange: 3}
 
 func genC16(t *rapid.T) Case {
 	c := Case{Cfg: drawConcCfg(t)}
@@ -63,7 +63,7 @@ type c06Case struct {
 	Survivor bool `json:"survivor"` // a second process continues after the crash
 }
 
-var c06Targets = []int{KAdd, KAdd, KAddMulti, KCompactAll, KExpire, KAutoCompact, KClean, KClose, KAbandon}
+var c06Targets = []int{KAdd, KAdd, KAddMulti, KCompactAll, KExpire, KAutoCompact, KClean, KClose, KAbandon, KCompactRange, KCompactRange}
 
 func genC06(t *rapid.T) c06Case {
 	c := Case{Cfg: drawConcCfg(t)}
